@@ -108,42 +108,23 @@ fn parse_escaped_string<'a>(
                 // utf-8 string the surrogates are required to be paired,
                 // whereas deserializing a byte string accepts lone surrogates.
                 n1 @ 0xD800..=0xDBFF => {
-                    if data.len() < 2 {
-                        encode_invalid_unicode(numbers, str_buf);
-                        return Ok(data);
-                    }
-                    if data[0] == b'\\' && data[1] == b'u' {
-                        *idx += 2;
-                        data = &data[2..];
-                    } else {
-                        encode_invalid_unicode(numbers, str_buf);
-                        return Ok(data);
-                    }
-                    let mut lower_numbers = vec![0; UNICODE_LEN];
-                    if data[0] == b'{' {
-                        data = &data[1..];
-                        data.read_exact(lower_numbers.as_mut_slice())?;
-                        if data[0] != b'}' {
-                            return Err(Error::Syntax(
-                                ParseErrorCode::UnexpectedEndOfHexEscape,
-                                *idx,
-                            ));
+                    // A high surrogate only forms a character together with an
+                    // immediately following escaped low surrogate, otherwise it is
+                    // kept as invalid unicode and the following characters are
+                    // parsed on their own.
+                    match parse_low_surrogate(data) {
+                        Some((n2, len)) => {
+                            *idx += len;
+                            data = &data[len..];
+                            let n =
+                                (((n1 - 0xD800) as u32) << 10 | (n2 - 0xDC00) as u32) + 0x1_0000;
+                            char::from_u32(n).unwrap()
                         }
-                        data = &data[1..];
-                        *idx += 6;
-                    } else {
-                        data.read_exact(lower_numbers.as_mut_slice())?;
-                        *idx += 4;
+                        None => {
+                            encode_invalid_unicode(numbers, str_buf);
+                            return Ok(data);
+                        }
                     }
-                    let n2 = decode_hex_escape(lower_numbers.clone(), idx)?;
-                    if !(0xDC00..=0xDFFF).contains(&n2) {
-                        encode_invalid_unicode(numbers, str_buf);
-                        encode_invalid_unicode(lower_numbers, str_buf);
-                        return Ok(data);
-                    }
-
-                    let n = (((n1 - 0xD800) as u32) << 10 | (n2 - 0xDC00) as u32) + 0x1_0000;
-                    char::from_u32(n).unwrap()
                 }
 
                 // Every u16 outside of the surrogate ranges above is guaranteed
@@ -155,6 +136,31 @@ fn parse_escaped_string<'a>(
         other => return Err(Error::Syntax(ParseErrorCode::InvalidEscaped(other), *idx)),
     }
     Ok(data)
+}
+
+// Check whether the data starts with an escaped low surrogate, `\uXXXX` or `\u{XXXX}`,
+// returns the low surrogate and the length of the escaped characters.
+fn parse_low_surrogate(data: &[u8]) -> Option<(u16, usize)> {
+    if data.len() < 2 || data[0] != b'\\' || data[1] != b'u' {
+        return None;
+    }
+    let (numbers, len) = if data.get(2) == Some(&b'{') {
+        if data.get(3 + UNICODE_LEN) != Some(&b'}') {
+            return None;
+        }
+        (data.get(3..3 + UNICODE_LEN)?, 4 + UNICODE_LEN)
+    } else {
+        (data.get(2..2 + UNICODE_LEN)?, 2 + UNICODE_LEN)
+    };
+    let mut n = 0;
+    for number in numbers {
+        n = (n << 4) + decode_hex_val(*number)?;
+    }
+    if (0xDC00..=0xDFFF).contains(&n) {
+        Some((n, len))
+    } else {
+        None
+    }
 }
 
 // https://datatracker.ietf.org/doc/html/rfc8259#section-8.2
